@@ -17,6 +17,7 @@ META = {
         'R3': 'periodic start box reaches A - W/2 and A + 3W/2 on active axes (C02.R3); the width given to the search is the width the boundary was built from',
         'R4': 'search keys are distances to the position the builder uses: leaf key == |q + s - g|^2 == |q - (g + reported shift)|^2 (C17.R2)',
         'R5': 'route selection: `periodic` selects the wrapped search and `!periodic` the plain one, identically at both entry points',
+        'R6': 'own images are candidates like any other: the builder removes exactly the first stream item (the generator itself, unshifted) and does not filter later items by index (C01.R1)',
     },
     'explanation': 'Decides the enumeration of periodic images (exactly the 3^d lattice shifts with components in {-w,0,+w} on active axes), the sign and absence '
                    'of reported shifts, the size of the start cell, key/position consistency and the selection of the wrapped route, per configuration by '
@@ -32,7 +33,7 @@ def run(ctx):
     for cfg in ctx.configs_used:
         F = ctx.facts(cfg)
         sfx = '' if cfg == 'default' else '@' + cfg
-        for fn in (r1, r2, r3, r4, r5):
+        for fn in (r1, r2, r3, r4, r5, r6):
             rule = 'C06.' + fn.__name__.upper()
             ctx.guarded(rule, 'evaluate' + sfx, lambda: fn(ctx, F, rule, sfx))
 
@@ -188,3 +189,8 @@ def r5(ctx, F, rule, sfx):
         # the boundary is built with the same flag
         cb = r.one('SimulationBoundary::cuboid')
         ctx.check(rule, '%s:boundary-gets-same-flag%s' % (which, sfx), repr(cb.fargs[2]) == 'b:periodic', repr(cb.fargs[2]), 'periodic', where(cb.body, cb.line), key_extra='flag')
+
+
+def r6(ctx, F, rule, sfx):
+    from . import c01
+    c01.r1(ctx, F, rule, sfx)
